@@ -10,11 +10,16 @@ oracle: one result per payload, same multiset as the sequential mode.
 from __future__ import annotations
 
 import ast
+import asyncio
 import concurrent.futures as cf
 import contextlib
+import errno
+import gc
 import io
 import math
 import multiprocessing
+import os
+import pickle
 import signal
 import sys
 import threading
@@ -82,6 +87,48 @@ CLASSES: dict[str, type[BaseException]] = {c.__name__: c for c in [
     ZeroDivisionError, AssertionError, AttributeError, Exception, BaseException,
     C18Error, C18Lookup, C18Type, C18KI, C18Base, C18Mixed, C18Rec, C18TypeRuntime,
 ]}
+# the wider lattice: every errno-mapped OSError subclass, the exception classes that the machinery under the loop
+# itself uses (futures, pickle, generators, the stop placeholder), warnings, groups
+WIDE: list[tuple[str, type[BaseException]]] = [(c.__name__, c) for c in [
+    FileNotFoundError, FileExistsError, PermissionError, TimeoutError, BrokenPipeError, ConnectionError,
+    ConnectionResetError, ConnectionAbortedError, ConnectionRefusedError, IsADirectoryError, NotADirectoryError,
+    BlockingIOError, ChildProcessError, ProcessLookupError,
+    EOFError, MemoryError, UnicodeError, UnicodeDecodeError, IndexError, OverflowError, FloatingPointError, BufferError,
+    ImportError, ModuleNotFoundError, NameError, UnboundLocalError, SyntaxError, StopAsyncIteration, ReferenceError,
+    SystemError, Warning, UserWarning, DeprecationWarning, ExceptionGroup, BaseExceptionGroup,
+    pickle.PickleError, pickle.PicklingError, pickle.UnpicklingError,
+    cf.InvalidStateError, cf.BrokenExecutor, threading.BrokenBarrierError,
+]] + [('FutCancelled', cf.CancelledError), ('AsyncCancelled', asyncio.CancelledError)]
+for _n, _c in WIDE:
+    assert _n not in CLASSES, _n
+    CLASSES[_n] = _c
+
+ERRNOS = ['EINTR', 'ENOENT', 'EACCES', 'ETIMEDOUT', 'EPIPE', 'EIO', 'ENOSPC', 'EAGAIN', 'ECHILD', 'EEXIST', 'EISDIR',
+          'ECONNRESET', 'ESRCH', 'EPERM', 'EBADF']
+
+# outcomes that are not small integers (`obj:<k>`; the model sees ret:(OBJ_BASE+k))
+OBJ_BASE = 100000
+OBJS: list[Any] = [None, '', (), [], {}, 0.0, False, True, 'text', [1, 2], {'a': 1}, frozenset(), b'', (None,), [[]]]
+
+# recursion depth above which a `deep:<d>:...` behaviour cannot succeed under taskproc's limit of 2**16
+DEEP_FAIL = 2 ** 16
+DEEP_OK_MAX = 40000
+
+
+def make_exc(name: str) -> BaseException:
+    c = C18TwoArg if name == 'C18TwoArg' else CLASSES[name]
+    if c is InterruptedError:
+        return InterruptedError('stopped')           # looks exactly like taskproc's placeholder for a set stop event
+    if c is BaseExceptionGroup:
+        return c('c18', [C18Base('inner')])         # (with only Exceptions inside it would become an ExceptionGroup)
+    if issubclass(c, BaseExceptionGroup):
+        return c('c18', [ValueError('inner')])
+    if issubclass(c, UnicodeDecodeError):
+        return c('utf-8', b'\xff', 0, 1, 'c18')
+    if c is C18TwoArg:
+        return C18TwoArg(1, 2)
+    return c('c18')
+
 
 # ids fixed by Lib/ParProc.v
 FIXED_IDS = {BaseException: 0, KeyboardInterrupt: 1, RuntimeError: 2, Exception: 3, RecursionError: 4,
@@ -138,18 +185,70 @@ def _make_visual():
 VisPayload = None        # set in main() once tatsu is importable
 
 
+def _dive(d: int, spec: str):
+    if d <= 0:
+        return behave(spec)
+    return _dive(d - 1, spec)
+
+
 def behave(spec: str):
+    """spec = ret:<int> | obj:<k> | exc:<class name> | os:<ERRNO> | deep:<frames>:<spec>"""
     kind, _, val = spec.partition(':')
+    if kind == 'deep':
+        d, _, rest = val.partition(':')
+        return _dive(int(d), rest)                # a recursive function on deeply nested input
     if kind == 'ret':
         return int(val)
-    if val == 'C18TwoArg':
-        raise C18TwoArg(1, 2)
-    raise CLASSES[val]('c18')
+    if kind == 'obj':
+        return OBJS[int(val)]
+    if kind == 'os':                              # the way I/O code fails: Python maps the errno to the subclass
+        code = getattr(errno, val)
+        raise OSError(code, 'c18 ' + val, 'c18.txt')
+    raise make_exc(val)
+
+
+def spec_effect(spec: str):
+    """what a behaviour amounts to under taskproc's recursion limit: ('ret', code) | ('exc', class)"""
+    kind, _, val = spec.partition(':')
+    if kind == 'deep':
+        d, _, rest = val.partition(':')
+        if int(d) >= DEEP_FAIL:
+            return ('exc', RecursionError)
+        assert int(d) <= DEEP_OK_MAX, spec
+        return spec_effect(rest)
+    if kind == 'ret':
+        return ('ret', int(val))
+    if kind == 'obj':
+        return ('ret', OBJ_BASE + int(val))
+    if kind == 'os':
+        return ('exc', type(OSError(getattr(errno, val), 'x')))
+    return ('exc', C18TwoArg if val == 'C18TwoArg' else CLASSES[val])
+
+
+def is_stop(spec: str) -> bool:
+    """StopIteration family: a PROPAGATING one is rewritten by the generator machinery (outside the property), so the
+    pool runs use it only where the loop is asked to capture it"""
+    kind, val = spec_effect(spec)
+    return kind == 'exc' and issubclass(val, (StopIteration, StopAsyncIteration))
+
+
+def obj_code(o):
+    for k, v in enumerate(OBJS):
+        if type(v) is type(o) and v == o:
+            return OBJ_BASE + k
+    return ('unknown-outcome', repr(o))
+
+
+LIMIT0 = sys.getrecursionlimit()      # every run starts from the interpreter's limit (concurrent taskprocs of the real
+                                      # thread pool can leave the process-wide limit raised; forked workers inherit it)
+NO_GC_IN_WORKERS = False     # set (before the pool forks) for the repetition of a run that died of D18b
 
 
 def c18_func(arg, *args, **kwargs):
     if args != ('A',) or kwargs != {'k': 1}:
         raise AssertionError('args/kwargs not forwarded')
+    if NO_GC_IN_WORKERS and multiprocessing.current_process().name != 'MainProcess':
+        gc.disable()
     if isinstance(arg, Path):                     # taskproc's retry: func(payload.path, ...)
         return behave(arg.name.replace('=', ':'))
     if arg.payload.get('sleep'):
@@ -168,10 +267,10 @@ def mk_payload(pid: int, first: str, second: str = 'ret:0', visual: bool = False
 
 
 def spec_sx(spec: str):
-    kind, _, val = spec.partition(':')
+    kind, val = spec_effect(spec)
     if kind == 'ret':
-        return [Atom('ret'), int(val)]
-    return [Atom('exc'), mro_ids(C18TwoArg if val == 'C18TwoArg' else CLASSES[val])]
+        return [Atom('ret'), val]
+    return [Atom('exc'), mro_ids(val)]
 
 
 def task_sx(p, reraise: bool):
@@ -190,6 +289,8 @@ def canon_result(r, tagged=False):
         if not (isinstance(o, tuple) and len(o) == 2 and o[0] == 'P'):
             return ('outcome-not-pickable', repr(o))
         o = o[1]
+    if type(o) is not int and not (o is None and r.exception is not None):
+        o = obj_code(o)
     pid = r.payload.payload['pid'] if hasattr(r.payload, 'payload') else repr(r.payload)
     return (pid, o, None if r.exception is None else tuple(mro_ids(type(r.exception))))
 
@@ -260,22 +361,36 @@ def source_shape(chk: Check):
 def run_table(chk: Check, mr: ModelRun):
     from tatsu.parproc.task import Task, taskproc
     from tatsu.util import identity
-    excs = ['ValueError', 'KeyError', 'TypeError', 'C18Type', 'RuntimeError', 'RecursionError', 'C18Rec',
+    core = ['ValueError', 'KeyError', 'TypeError', 'C18Type', 'RuntimeError', 'RecursionError', 'C18Rec',
             'NotImplementedError', 'KeyboardInterrupt', 'C18KI', 'SystemExit', 'GeneratorExit', 'C18Base',
             'StopIteration', 'InterruptedError', 'C18Error', 'C18Lookup', 'C18Mixed', 'C18TypeRuntime',
             'ZeroDivisionError', 'AssertionError']
-    firsts = ['ret:7'] + ['exc:' + e for e in excs]
-    seconds = ['ret:9', 'exc:ValueError', 'exc:TypeError', 'exc:RuntimeError', 'exc:KeyboardInterrupt', 'exc:C18Base']
+    wide = [n for n in CLASSES if n not in core]
+    # deep:<d>: the function recurses d frames first (far beyond the interpreter's default limit, within / beyond
+    # the 2**16 that taskproc grants); os:<ERRNO>: OSError built from an errno; obj:<k>: outcomes that are not ints
+    deep = ['deep:3000:ret:7', 'deep:20000:ret:8', 'deep:3000:exc:ValueError', 'deep:1500:exc:C18Type',
+            'deep:3000:exc:RuntimeError', 'deep:2000:os:EINTR', f'deep:{DEEP_FAIL + 4000}:ret:7']
+    firsts = (['ret:7'] + ['exc:' + e for e in core] + ['exc:' + e for e in wide] + ['os:' + e for e in ERRNOS]
+              + [f'obj:{k}' for k in range(len(OBJS))] + deep)
+    full = set(['ret:7'] + ['exc:' + e for e in core] + deep[:4])
+    seconds = ['ret:9', 'exc:ValueError', 'exc:TypeError', 'exc:RuntimeError', 'exc:KeyboardInterrupt', 'exc:C18Base',
+               'deep:3000:ret:9', 'deep:20000:obj:0', 'deep:2500:exc:ValueError', 'deep:2500:os:ENOENT',
+               f'deep:{DEEP_FAIL + 4000}:ret:9', 'exc:InterruptedError', 'os:EINTR', 'obj:1', 'exc:StopIteration']
     raises_sets = [(), ('ValueError',), ('LookupError',), ('Exception',), ('TypeError', 'KeyError'),
-                   ('RuntimeError',), ('BaseException',), ('C18Error', 'ArithmeticError'), ('KeyboardInterrupt',)]
+                   ('RuntimeError',), ('BaseException',), ('C18Error', 'ArithmeticError'), ('KeyboardInterrupt',),
+                   ('OSError',), ('InterruptedError', 'ValueError')]
+    few_sets = [(), ('ValueError',), ('Exception',), ('OSError',), ('InterruptedError', 'ValueError')]
     reqs, reals, descr = [], [], []
     pid = 0
     for first in firsts:
         for visual in (False, True):
-            secs = seconds if (visual and first.startswith('exc:') and issubclass(CLASSES[first[4:]], TypeError)) else ['ret:9']
+            eff = spec_effect(first)
+            secs = seconds if (visual and eff[0] == 'exc' and issubclass(eff[1], TypeError)) else ['ret:9']
             for second in secs:
+                heavy = int(first.split(':')[1]) >= DEEP_FAIL if first.startswith('deep:') else \
+                    (second.startswith('deep:') and int(second.split(':')[1]) >= DEEP_FAIL)
                 for reraise in (False, True):
-                    for raises in raises_sets:
+                    for raises in (few_sets[:2] if heavy else raises_sets if first in full else few_sets):
                         for stop_set in ((False, True) if (first in ('ret:7', 'exc:ValueError') and not raises) else (False,)):
                             pid += 1
                             p = mk_payload(pid, first, second, visual, raises)
@@ -285,6 +400,7 @@ def run_table(chk: Check, mr: ModelRun):
                             tagged = (pid % 2 == 0) and not stop_set    # the early `stopped` Result bypasses pickable
                             t = Task(stop=stop, func=c18_func, payload=p, pickable=pick_tag if tagged else identity,
                                      reraise=reraise, args=('A',), kwargs={'k': 1})
+                            sys.setrecursionlimit(LIMIT0)
                             try:
                                 real = ('res', canon_result(taskproc(t), tagged))
                             except Hang:
@@ -299,15 +415,22 @@ def run_table(chk: Check, mr: ModelRun):
     for (real, stop_set, stop_after), rep, d in zip(reals, mr.ask(reqs), descr):
         model = ('res', model_result(rep[1])) if rep[0] == 'res' else ('fail', tuple(int(c) for c in rep[1]))
         chk.case('table:' + repr(d), nontrivial=d[0] != 'ret:7')
+        if d[0].startswith('deep:') or d[1].startswith('deep:'):
+            chk.count('table.deep_recursion' + ('.legacy_call' if d[1].startswith('deep:') else ''))
         chk.count('table.' + ('captured' if real[0] == 'res' and real[1][-1] else 'returned' if real[0] == 'res' else 'propagates'))
         want_stop = stop_set or (model[0] == 'fail' and 1 in model[1])
         if real != model or stop_after != want_stop:
             bad += 1
             first, second, visual, reraise, raises, stop_set = d
             cat = 'ret'
-            if first.startswith('exc:'):
+            eff = spec_effect(first)
+            if eff[0] == 'exc':
                 cat = next(b.__name__ for b in (KeyboardInterrupt, RuntimeError, TypeError, Exception, BaseException)
-                           if issubclass(CLASSES[first[4:]], b))
+                           if issubclass(eff[1], b))
+            if first.startswith('deep:'):
+                cat += '@deep'
+            if second.startswith('deep:'):
+                cat += '>deep'
             sig = (f'table:{cat}:{"visual" if visual else "plain"}:reraise={int(reraise)}:'
                    f'raises={"set" if raises else "none"}:stop={int(stop_set)}:{real[0]}-vs-{model[0]}')
             chk.violation(sig, f'taskproc differs from the capture table on {d}',
@@ -503,6 +626,7 @@ def run_real(payloads, parallel, reraise, mw, sched, real_iter, tagged):
     global RIG
     from tatsu.parproc import parproc
     RIG = rig = Rig(sched, len(payloads), real_iter)
+    sys.setrecursionlimit(LIMIT0)
     out = []
     kw = {'pickable': pick_tag} if tagged else {}
     try:
@@ -526,7 +650,10 @@ def pattern_name(payloads, reraise):
     ks = []
     for p in payloads:
         f = p.payload['first']
-        ks.append('r' if f.startswith('ret') else f[4:])
+        k = 'r' if f.startswith('ret') else f[4:] if f.startswith('exc:') else f
+        if isinstance(p, VisPayload) and spec_effect(f)[0] == 'exc' and issubclass(spec_effect(f)[1], TypeError):
+            k += '>' + p.path.name.replace('=', ':')
+        ks.append(k)
     return ','.join(ks) + (':reraise' if reraise else '')
 
 
@@ -569,10 +696,18 @@ def x1_configs(chk: Check):
                 yield pat, reraise, threads, mw
 
 
+def P(first, second='ret:0', visual=False, raises=()):
+    """an explicit pattern item (hashable)"""
+    return ('P', first, second, visual, tuple(raises))
+
+
 def build_payloads(pat, rng=None):
     ps = []
     for i, k in enumerate(pat):
-        if k == 'ret':
+        if isinstance(k, tuple):
+            _, first, second, visual, raises = k
+            ps.append(mk_payload(i + 1, first, second=second, visual=visual, raises=raises))
+        elif k == 'ret':
             ps.append(mk_payload(i + 1, f'ret:{(i + 1) * 10}'))
         elif k == 'exc:C18Type':
             ps.append(mk_payload(i + 1, k, second=f'ret:{(i + 1) * 10 + 1}', visual=True))
@@ -581,6 +716,34 @@ def build_payloads(pat, rng=None):
         else:
             ps.append(mk_payload(i + 1, k))
     return ps
+
+
+def sweep_specs():
+    """one behaviour per exception class of the lattice / errno / non-int outcome / recursion depth"""
+    out = ['exc:' + n for n in CLASSES] + ['os:' + e for e in ERRNOS] + [f'obj:{k}' for k in range(len(OBJS))]
+    out += ['deep:3000:ret:7', 'deep:20000:obj:0', 'deep:3000:exc:ValueError', 'deep:2000:os:EINTR',
+            'deep:3000:exc:RuntimeError']
+    return out
+
+
+def x1_sweep_configs(chk: Check):
+    """every behaviour of the sweep in the middle of three tasks, every schedule; the legacy calling convention
+    (VisualPayload + TypeError from the first call) with every kind of second call"""
+    modes = [(False, 1), (True, 2)] if chk.quick else [(False, 1), (False, 2), (True, 2), (False, None)]
+    for spec in sweep_specs():
+        for threads, mw in modes:
+            yield ['ret', P(spec), 'ret'], False, threads, mw
+    legacy_seconds = ['deep:3000:ret:5', 'deep:20000:obj:0', 'deep:2500:exc:ValueError', 'deep:2500:os:EINTR',
+                      'exc:InterruptedError', 'os:EINTR', 'os:ENOENT', 'obj:0', 'obj:1', 'exc:FutCancelled',
+                      'exc:PicklingError', 'exc:TypeError', 'deep:3000:exc:RuntimeError']
+    for first in ('exc:TypeError', 'deep:1500:exc:C18Type'):
+        for second in legacy_seconds:
+            for threads, mw in modes:
+                yield [P('ret:1', visual=True), P(first, second, visual=True), 'ret'], False, threads, mw
+    # several deep / legacy-deep tasks in one run (the limit is raised and restored around every call)
+    for threads, mw in modes:
+        yield [P('deep:3000:ret:1'), P('exc:TypeError', 'deep:3000:ret:2', visual=True), P('deep:3000:exc:KeyError'),
+               P('exc:C18Type', 'deep:3000:ret:4', visual=True)], False, threads, mw
 
 
 def run_x1(chk: Check, mr: ModelRun):
@@ -593,7 +756,8 @@ def run_x1(chk: Check, mr: ModelRun):
         return real
 
     # exhaustive over schedules (stateless depth-first enumeration of the choice points)
-    for pat, reraise, threads, mw in x1_configs(chk):
+    all_configs = list(x1_configs(chk)) + list(x1_sweep_configs(chk))
+    for pat, reraise, threads, mw in all_configs:
         payloads = build_payloads(pat)
         sched = []
         nsched = 0
@@ -619,7 +783,7 @@ def run_x1(chk: Check, mr: ModelRun):
         chk.count(f'x1.schedules.n{len(pat)}', nsched)
     # sequential mode and the single-task shortcut on the same patterns
     seen = set()
-    for pat, reraise, threads, mw in x1_configs(chk):
+    for pat, reraise, threads, mw in all_configs:
         key = (tuple(pat), reraise)
         if key in seen:
             continue
@@ -632,11 +796,31 @@ def run_x1(chk: Check, mr: ModelRun):
     rng = chk.rng
     kinds = ['ret'] * 8 + ['exc:ValueError', 'exc:KeyError', 'exc:C18Error', 'exc:C18Type', 'exc:ZeroDivisionError',
                            'exc:C18Lookup']
+    # the whole capturable part of the lattice (a propagating StopIteration is rewritten by the generator machinery:
+    # outside the property, T1 only), errno-built OSErrors, non-int outcomes, deep recursion
+    capturable = [n for n, c in CLASSES.items() if issubclass(c, Exception) and not issubclass(c, RuntimeError)
+                  and not issubclass(c, (StopIteration, StopAsyncIteration))]
     risky = ['exc:RuntimeError', 'exc:RecursionError', 'exc:KeyboardInterrupt', 'exc:C18Base', 'exc:C18Mixed',
-             'exc:SystemExit']
+             'exc:SystemExit', 'exc:BrokenExecutor', 'exc:AsyncCancelled', 'deep:3000:exc:RuntimeError']
+    seconds = ['ret:5', 'exc:ValueError', 'exc:TypeError', 'deep:2500:ret:6', 'deep:2500:exc:ValueError',
+               'exc:InterruptedError', 'os:EINTR', 'os:EIO', 'obj:0']
+
+    def wide_kind():
+        x = rng.random()
+        if x < 0.45:
+            return 'exc:' + rng.choice(capturable)
+        if x < 0.60:
+            return 'os:' + rng.choice(ERRNOS)
+        if x < 0.75:
+            return f'obj:{rng.randrange(len(OBJS))}'
+        if x < 0.85:
+            return f'deep:{rng.choice([1200, 3000, 8000])}:ret:{rng.randint(0, 99)}'
+        return f'deep:{rng.choice([1200, 3000])}:' + rng.choice(['exc:ValueError', 'exc:TypeError', 'os:EINTR', 'obj:0'])
+
     for it in range(250 if chk.quick else 4000):
         n = rng.randint(2, 14)
-        pat = [rng.choice(kinds) for _ in range(n)]
+        wide = (it // 2) % 2 == 1
+        pat = [(wide_kind() if (wide and rng.random() < 0.5) else rng.choice(kinds)) for _ in range(n)]
         if rng.random() < 0.25:
             pat[rng.randrange(n)] = rng.choice(risky)
         payloads = []
@@ -645,10 +829,10 @@ def run_x1(chk: Check, mr: ModelRun):
                 payloads.append(mk_payload(i + 1, f'ret:{rng.randint(0, 99)}', visual=rng.random() < 0.3))
             else:
                 vis = rng.random() < 0.4
-                payloads.append(mk_payload(i + 1, k, second=rng.choice(['ret:5', 'exc:ValueError', 'exc:TypeError']),
+                payloads.append(mk_payload(i + 1, k, second=rng.choice(seconds if wide else seconds[:3]),
                                            visual=vis,
                                            raises=rng.choice([(), (), ('ValueError',), ('LookupError', 'C18Error'),
-                                                              ('Exception',)])))
+                                                              ('Exception',), ('OSError', 'ValueError', 'TypeError')])))
         if rng.random() < 0.1:     # equal payload ids / equal tasks are distinct futures
             payloads[0] = mk_payload(2, payloads[1].payload['first'], payloads[1].path.name.replace('=', ':'),
                                      isinstance(payloads[1], VisPayload), payloads[1].payload['raises'])
@@ -719,16 +903,21 @@ def run_x1(chk: Check, mr: ModelRun):
                 'ending': ex[6][0], 'yielded_payloads': [r[0] for r in ex[6][1]]})
 
 
+def final_effect(p):
+    kind, val = spec_effect(p.payload['first'])
+    if kind == 'exc' and issubclass(val, TypeError) and isinstance(p, VisPayload):
+        kind, val = spec_effect(p.path.name.replace('=', ':'))      # the legacy convention: func(payload.path)
+    return kind, val
+
+
 def expected_result(p, reraise):
     """independent reading of the property: what one payload contributes when its exception is one the loop
     is asked to capture (None: the exception propagates by design / outside the property)"""
-    spec = p.payload['first']
-    if spec.startswith('exc:') and issubclass(CLASSES.get(spec[4:], C18TwoArg), TypeError) and isinstance(p, VisPayload):
-        spec = p.path.name.replace('=', ':')
+    kind, val = final_effect(p)
     pid = p.payload['pid']
-    if spec.startswith('ret:'):
-        return (pid, int(spec[4:]), None)
-    c = C18TwoArg if spec[4:] == 'C18TwoArg' else CLASSES[spec[4:]]
+    if kind == 'ret':
+        return (pid, val, None)
+    c = val
     if reraise or not issubclass(c, Exception) or issubclass(c, RuntimeError):
         return None
     rs = _raises_of(p)
@@ -767,12 +956,32 @@ def run_x2(chk: Check, mr: ModelRun):
     rng = chk.rng
     cpu = multiprocessing.cpu_count()
     kinds = ['ret'] * 6 + ['exc:ValueError', 'exc:KeyError', 'exc:C18Error', 'exc:C18Type', 'exc:C18Lookup']
+
+    def round_trips(name):
+        try:
+            return type(pickle.loads(pickle.dumps(make_exc(name)))) is CLASSES[name]
+        except Exception:   # noqa: BLE001
+            return False
+
+    # capturable classes whose instances survive the trip back from a worker process (the others: D18a)
+    capturable = [n for n, c in CLASSES.items() if issubclass(c, Exception) and not issubclass(c, RuntimeError)
+                  and round_trips(n)]
+    chk.count('x2.capturable_classes', len(capturable))
+    wide_kinds = (['exc:' + n for n in capturable] + ['os:' + e for e in ERRNOS]
+                  + [f'obj:{k}' for k in range(len(OBJS))])
+    # deep recursion only in worker PROCESSES: sys.setrecursionlimit is process-wide, and concurrent threads of a
+    # thread pool overwrite each other's limit (thread mode is unreachable on this interpreter; see notes)
+    deep_kinds = ['deep:1500:ret:1', 'deep:3000:ret:2', 'deep:9000:ret:3', 'deep:3000:exc:ValueError', 'deep:2000:os:EINTR']
+    seconds = ['ret:5', 'exc:ValueError', 'exc:InterruptedError', 'os:ENOENT', 'obj:0']
+    deep_seconds = ['deep:1500:ret:6', 'deep:3000:ret:7', 'deep:3000:exc:ValueError']
     cases = []
     nproc, nthr = (6, 6) if chk.quick else (60, 60)
     for it in range(nproc + nthr):
         threads = it >= nproc
         n = rng.choice([2, 3, 5, 8, 12, 20])
-        pat = [rng.choice(kinds) for _ in range(n)]
+        wide = it % 2 == 1
+        pool = kinds + ((wide_kinds if threads else wide_kinds + deep_kinds * 4) if wide else [])
+        pat = [(rng.choice(pool) if rng.random() < 0.5 else rng.choice(kinds)) for _ in range(n)]
         prop = None
         if it % 6 == 5:
             prop = rng.choice(['exc:RuntimeError', 'exc:RecursionError', 'exc:C18Mixed'])
@@ -780,21 +989,46 @@ def run_x2(chk: Check, mr: ModelRun):
         payloads = []
         for i, k in enumerate(pat):
             vis = rng.random() < 0.4
+            secs = seconds[:2] if not wide else seconds if threads else seconds + deep_seconds
             payloads.append(mk_payload(i + 1, k if k != 'ret' else f'ret:{rng.randint(0, 99)}',
-                                       second=rng.choice(['ret:5', 'exc:ValueError']), visual=vis,
-                                       raises=() if k in ('ret', prop) else rng.choice([(), ('Exception',), ('LookupError', 'ValueError', 'C18Error', 'TypeError')]),
+                                       second=rng.choice(secs), visual=vis,
+                                       raises=() if (k in ('ret', prop) or spec_effect(k)[0] == 'ret' or is_stop(k)) else rng.choice([(), ('Exception',), ('LookupError', 'ValueError', 'C18Error', 'TypeError', 'OSError')]),
                                        sleep=rng.choice([0, 0, 0.001, 0.003, 0.01, 0.02])))
         cases.append((payloads, threads, rng.choice([1, 2, 3, 4, None]), prop, 'pool'))
+    # every capturable class / errno / outcome object once, through a real process pool and a real thread pool
+    sweep = wide_kinds
+    for threads in (False, True):
+        payloads = []
+        for i, k in enumerate(sweep):
+            payloads.append(mk_payload(2 * i + 1, k, sleep=rng.choice([0, 0, 0.001, 0.002])))
+            payloads.append(mk_payload(2 * i + 2, f'ret:{i}'))
+        cases.append((payloads, threads, 3, None, 'class-sweep'))
+    # the legacy calling convention (func(payload.path) after a TypeError) on deeply nested input, next to new-style
+    # deep calls, in worker processes that start with the interpreter's default recursion limit
+    payloads = []
+    for i, (first, second) in enumerate([('exc:TypeError', 'deep:1500:ret:11'), ('deep:3000:ret:12', 'ret:0'),
+                                         ('exc:C18Type', 'deep:3000:ret:13'), ('ret:14', 'ret:0'),
+                                         ('deep:1200:exc:TypeError', 'deep:9000:ret:15'),
+                                         ('exc:TypeError', 'deep:3000:exc:ValueError'),
+                                         ('exc:TypeError', 'deep:2000:os:EINTR'), ('exc:TypeError', 'ret:18')]):
+        payloads.append(mk_payload(i + 1, first, second=second, visual=True))
+    cases.append((payloads, False, 2, None, 'legacy-deep'))
     # the exception object itself has to travel back from the worker process
     cases.append(([mk_payload(1, 'ret:1'), mk_payload(2, 'exc:C18TwoArg'), mk_payload(3, 'ret:3'), mk_payload(4, 'ret:4')],
                   False, 2, None, 'unpicklable-exception'))
     cases.append(([mk_payload(1, 'ret:1'), mk_payload(2, 'exc:C18TwoArg'), mk_payload(3, 'ret:3')],
                   True, 2, None, 'unpicklable-exception'))
-    reqs = []
-    reals = []
-    for payloads, threads, mw, prop, kind in cases:
+    # many captured exceptions per worker process: the garbage they leave behind (D18b)
+    many = []
+    for i in range(80):
+        many.append(mk_payload(2 * i + 1, ['exc:ValueError', 'exc:KeyError', 'os:EIO', 'exc:EOFError'][i % 4]))
+        many.append(mk_payload(2 * i + 2, f'ret:{i}'))
+    cases.append((many, False, 3, None, 'many-captured'))
+
+    def real_run(payloads, threads, mw):
         out = []
-        t0 = time.time()
+        mark = None
+        sys.setrecursionlimit(LIMIT0)
         with (RealThreads() if threads else NoCtx()):
             try:
                 gen = parproc(c18_func, payloads, 'A', parallel=True, reraise=False, max_workers=mw, k=1)
@@ -806,19 +1040,58 @@ def run_x2(chk: Check, mr: ModelRun):
             except Hang:
                 raise
             except BaseException as e:   # noqa: BLE001
-                ending = ('raised', type(e).__name__, tuple(mro_ids(type(e))) if type(e).__name__ in CLASSES else ())
+                ending = ('raised', type(e).__name__, tuple(mro_ids(type(e))) if type(e) in CLASSES.values() else ())
+                remote = str(getattr(e, '__cause__', None) or '')
+                if isinstance(e, (TypeError, OSError)) and 'managers.py' in remote and 'task.stop.is_set()' in remote:
+                    mark = 'stop-proxy'      # died in the worker inside taskproc's `task.stop.is_set()`, before the try
             else:
                 ending = ('done',)
+        return ending, out, mark
+
+    reqs = []
+    reals = []
+    proxy_deaths = 0
+    for payloads, threads, mw, prop, kind in cases:
+        t0 = time.time()
+        for attempt in range(3):
+            # after a death by D18b the run is repeated with the cyclic GC switched off in the worker processes (the
+            # defect is recorded once), so that its results can still be compared
+            globals()['NO_GC_IN_WORKERS'] = attempt > 0 and kind != 'many-captured'
+            try:
+                ending, out, mark = real_run(payloads, threads, mw)
+            finally:
+                globals()['NO_GC_IN_WORKERS'] = False
+            if mark != 'stop-proxy' and kind != 'many-captured':
+                break
+            if mark == 'stop-proxy':
+                proxy_deaths += 1
+                if proxy_deaths == 1:
+                    chk.violation('x2:process-pool:stop-proxy-connection-closed-by-gc-in-worker',
+                                  'real process pool: after captured exceptions a later task of the same worker died inside '
+                                  f'task.stop.is_set() ({ending[1]}), the generator raised it and the remaining payloads got no '
+                                  f'result ({len(out)} of {len(payloads)} yielded); pattern {pattern_name(payloads, False)[:200]}',
+                                  {'correspondence': 'X2 real pools', 'kind': kind, 'max_workers': mw, 'payloads': len(payloads),
+                                   'yielded': len(out), 'ending': ending[:2],
+                                   'note': 'timing dependent (cyclic GC in the worker); the run is repeated for the comparison'})
+                if kind == 'many-captured':
+                    break
+        if kind == 'many-captured' and mark == 'stop-proxy':
+            ending, out = ('done',), None         # already reported; nothing else to compare in this case
         chk.count('x2.thread_pool_runs' if threads else 'x2.process_pool_runs')
         chk.case(f'x2:{pattern_name(payloads, False)}:{threads}:{mw}:{kind}')
         reals.append((ending, out, time.time() - t0))
+        if os.environ.get('C18_TIMES'):
+            print(f'x2 {kind} threads={threads} mw={mw} n={len(payloads)} {time.time() - t0:.2f}s', file=sys.stderr)
         tasks = sx([task_sx(p, False) for p in payloads])
         reqs.append(f'(parproc 0 0 0 {cpu} () {tasks})')
+    chk.count('x2.stop_proxy_deaths', proxy_deaths)
     bad = 0
     for (payloads, threads, mw, prop, kind), (ending, out, dt), rep in zip(cases, reals, mr.ask(reqs)):
         m_end = model_ending(rep[0])
         m_out = [model_result(x) for x in rep[1]]
         mode = 'thread' if threads else 'process'
+        if out is None:
+            continue
         if m_end == ('done',):
             if ending != ('done',) or Counter(out) != Counter(m_out):
                 bad += 1
@@ -827,7 +1100,7 @@ def run_x2(chk: Check, mr: ModelRun):
                 else:
                     why = 'raised:' + ending[1] if ending[0] == 'raised' else \
                         'lost' if len(out) < len(m_out) else 'duplicated' if len(out) > len(m_out) else 'different'
-                    sig = f'x2:{mode}-pool:{why}'
+                    sig = f'x2:{mode}-pool:{why}' + ('' if kind in ('pool', 'unpicklable-exception') else ':' + kind)
                 chk.violation(sig, f'real {mode} pool: results are not one per payload / not the sequential multiset for '
                                    f'{pattern_name(payloads, False)} max_workers={mw}',
                               {'correspondence': 'X2 real pools', 'pattern': pattern_name(payloads, False), 'threads': threads,
@@ -836,8 +1109,8 @@ def run_x2(chk: Check, mr: ModelRun):
         else:
             # a propagating exception: the generator must raise one of the propagating exceptions and what it
             # yielded before must be distinct results of the sequential multiset
-            allowed = {tuple(mro_ids(CLASSES[p.payload['first'][4:]])) for p in payloads
-                       if expected_result(p, False) is None and p.payload['first'][4:] in CLASSES}
+            allowed = {tuple(mro_ids(final_effect(p)[1])) for p in payloads
+                       if expected_result(p, False) is None and final_effect(p)[0] == 'exc'}
             sub = not (Counter(out) - Counter(expected_result(p, False) for p in payloads))
             if ending[0] != 'raised' or ending[2] not in allowed or not sub:
                 bad += 1
@@ -861,13 +1134,26 @@ def main():
     chk = Check(PID)
     VisPayload = _make_visual()
     globals()['VisPayload'] = VisPayload
+    # the repo's own exception classes (fixed order: the class ids are part of the requests to the model)
+    from tatsu import exceptions as tex
+    from tatsu.parproc.task import TaskStop
+    for c in [TaskStop, tex.TatSuException, tex.ParseException, tex.ParseError, tex.GrammarError, tex.FailedSemantics,
+              tex.OptionSucceeded]:
+        CLASSES.setdefault(c.__name__, c)
+        for k in c.__mro__:
+            cid(k)
     chk.rule = ('X1: every schedule (depth-first over the choice points) for task lists of length 0..5 (quick) / 0..6 '
                 '(thorough), process pool with max_workers 1,2,3,None and thread pool, patterns: all ok, one captured / '
-                'propagating exception at every position, KeyboardInterrupt, reraise, visual retry, all captured; plus '
-                'sampled lists up to 14 tasks with random behaviours, worker counts and schedules; sequential mode on the '
-                'same patterns. T1: exception lattice (21 classes) x reraise x 9 raises() sets x visual retry. X2: real '
-                'pools with sleeps. Non-trivial: parallel with at least two tasks / an exception is raised; distinct by '
-                'pattern, mode, worker count and schedule.')
+                'propagating exception at every position, KeyboardInterrupt, reraise, visual retry, all captured; a sweep with '
+                'every class of the exception lattice (builtins incl. every errno-mapped OSError subclass built from the errno, '
+                'futures / pickle / generator / asyncio classes, the repo\'s own, groups, warnings), every non-int outcome '
+                'object and deep recursion (1200..20000 frames, i.e. beyond the default limit and within 2**16) in the middle '
+                'of three tasks, and the legacy convention func(payload.path) with every kind of second call; plus sampled '
+                'lists up to 14 tasks with random behaviours from all of these, worker counts and schedules; sequential mode '
+                'on the same patterns. T1: exception lattice (about 80 classes + errnos + outcome objects + deep first / '
+                'second calls, also beyond 2**16) x reraise x raises() sets x visual retry. X2: real pools with sleeps, the '
+                'class sweep, legacy-deep and many-captured runs. Non-trivial: parallel with at least two tasks / an '
+                'exception is raised; distinct by pattern, mode, worker count and schedule.')
     chk.trusted += ['concurrent.futures: Future, the contract of as_completed (snapshot at the call, each future once, any '
                     'order; the real iterator is driven in half of the X1 runs) and of the pools; multiprocessing (fork), pickle',
                     'modelled: task.py taskproc, pmap.py executor_pmap/process_pmap/thread_pmap, parproc.py parproc; not '
@@ -885,9 +1171,11 @@ def main():
         signal.signal(signal.SIGALRM, _alarm)
         try:
             signal.alarm(600 if chk.quick else 3000)
-            run_table(chk, mr)
-            run_x1(chk, mr)
-            run_x2(chk, mr)
+            for phase in (run_table, run_x1, run_x2):
+                t0 = time.time()
+                phase(chk, mr)
+                if os.environ.get('C18_TIMES'):
+                    print(f'{phase.__name__} {time.time() - t0:.2f}s', file=sys.stderr)
         except Hang as e:
             chk.violation('hang', str(e), {'hang': str(e)})
         finally:
